@@ -35,21 +35,30 @@ End Exact.
 (* --------------------------------------------------------------- binary64 *)
 Local Open Scope Z_scope.
 
-(* value_t restricted to the numeric alternatives *)
+(* value_t = std::variant<monostate, int, double, std::string>.  A string
+   carries what std::stod (libc, outside the model) answers on it: the parsed
+   double, or None when stod throws std::invalid_argument / std::out_of_range. *)
 Inductive pout :=
 | PVoid
 | PInt (z : Z)
-| PDouble (f : f64).
+| PDouble (f : f64)
+| PString (s : list Z) (parsed : option f64).
 
 Definition p_has_value (p : pout) : bool := match p with PVoid => false | _ => true end.
 
-(* lexical_cast<D_DOUBLE>(value_t) *)
+(* lexical_cast<D_DOUBLE>(value_t)  (utility.cc): double -> itself, int ->
+   converted, string -> std::stod, empty -> 0.0.  [lex_throws] tells when the
+   call leaves by an exception (the value of [lex_double] is then unused). *)
 Definition lex_double (p : pout) : f64 :=
   match p with
   | PDouble d => d
   | PInt z => F64.of_Z z
+  | PString _ (Some v) => v
+  | PString _ None => F64.zero
   | PVoid => F64.zero
   end.
+Definition lex_throws (p : pout) : bool :=
+  match p with PString _ None => true | _ => false end.
 
 (* dataframe::example *)
 Record example := mk_example {
@@ -134,6 +143,12 @@ Definition count_wrong (e : example) : bool :=
   negb (p_has_value mv) || negb (issmall (F64.sub (lex_double mv) (target e))).
 Definition count_err (e : example) : f64 := if count_wrong e then one else F64.zero.
 
+(* the four functors cast the output and the target only when the output has a
+   value: `lexical_cast<D_DOUBLE>(model_value) - label_as<D_DOUBLE>(example)` *)
+Definition err_throws (e : example) : bool :=
+  let mv := out (ex_in e) in
+  p_has_value mv && (lex_throws mv || lex_throws (ex_out e)).
+
 (* basic_binary_lambda_f::tag *)
 Definition binary_tag (i : list pout) : Z * f64 :=
   let res := out i in
@@ -170,6 +185,27 @@ Fixpoint soe_loop (errf : example -> f64) (step skip : nat) (l : list example) (
       end
   end.
 
+(* the same loop with the exception path: when the error functor throws on a
+   visited example the loop is left at once -- that example and the following
+   ones are untouched, the earlier ones keep their increments, and there is no
+   fitness *)
+Fixpoint soe_loop_x (throws : example -> bool) (errf : example -> f64) (step skip : nat)
+  (l : list example) (st : f64 * f64) : list example * option (f64 * f64) :=
+  match l with
+  | [] => ([], Some st)
+  | e :: r =>
+      match skip with
+      | S k => let (r', st') := soe_loop_x throws errf step k r st in (e :: r', st')
+      | O =>
+          if Nat.leb step (length l) then
+            if throws e then (l, None)
+            else
+              let (e', st1) := soe_visit errf e st in
+              let (r', st') := soe_loop_x throws errf step (Nat.pred step) r st1 in (e' :: r', st')
+          else (l, Some st)
+      end
+  end.
+
 (* the plain left-to-right loop (step = 1) *)
 Fixpoint soe_all (errf : example -> f64) (l : list example) (st : f64 * f64)
   : list example * (f64 * f64) :=
@@ -194,6 +230,12 @@ Definition sum_of_errors_impl_pinned (errf : example -> f64) (step : nat) (d : l
 Definition sum_of_errors_impl (errf : example -> f64) (step : nat) (d : list example)
   : list example * fitness :=
   let (d', st) := soe_loop errf step 0 d (F64.zero, F64.zero) in (d', soe_result (fst st)).
+
+(* with the exception path *)
+Definition sum_of_errors_impl_x (throws : example -> bool) (errf : example -> f64) (step : nat) (d : list example)
+  : list example * option fitness :=
+  let (d', st) := soe_loop_x throws errf step 0 d (F64.zero, F64.zero) in
+  (d', match st with Some s => Some (soe_result (fst s)) | None => None end).
 
 (* operator() and fast() *)
 Definition soe_eval (errf : example -> f64) (d : list example) := sum_of_errors_impl errf 1 d.
@@ -270,6 +312,12 @@ Definition constrained_eval (pen : f64) (base : fitness) : fitness := [F64.neg p
         implementation's outputs) --------------------------------------- *)
 Definition wrong_by (wrong : example -> bool) (l : list example) : list example :=
   map (fun e => if wrong e then bump e else e) l.
+(* what operator() of an error evaluator leaves behind, exception included *)
+Fixpoint frame_x (throws wrong : example -> bool) (l : list example) : list example :=
+  match l with
+  | [] => []
+  | e :: r => if throws e then e :: r else (if wrong e then bump e else e) :: frame_x throws wrong r
+  end.
 (* what a classification loop leaves behind, exception included *)
 Fixpoint frame_cls (wrong : example -> bool) (l : list example) : list example :=
   match l with
